@@ -18,6 +18,7 @@ CONSTANTS KemSet, KdfSet, AeadSet, ModeSet,
           ShotDl,        \* "msg": single-shot opens get the verbatim message only; "tamper": also modified ones
           Impost,        \* TRUE: after the honest sender, an impostor sender "i" may set up too (C08)
           SweepMax,      \* Shape "sweep": largest length
+          SweepExtra,    \* Shape "sweep": further lengths beyond SweepMax (a sparse continuation of the dense range)
           Shape,         \* "sweep" | "all": every value combination; "one": one combination per (suite, mode)
           EmitWiring,    \* TRUE: print the C15 wiring records
           Emit,          \* TRUE: print every generated transition (and the key-derivation prologue)
@@ -77,7 +78,7 @@ OnePair(mo) == IF mo \in PskModes
                        [] OTHER -> <<Leaf("pskd", 160), Leaf("pskidd", 160)>>)
                ELSE <<<<>>, <<>>>>
 \* "sweep": one field at a time takes EVERY length 0..SweepMax (a value cut at some internal buffer size shows)
-SweepLens == 0..SweepMax
+SweepLens == (0..SweepMax) \cup SweepExtra
 SweepParams ==
     UNION {{SP(su, mo, Leaf("infoL" \o ToString(n), n), OnePair(mo)) : su \in Suites, n \in SweepLens} : mo \in ModeSet}
     \cup UNION {{SP(su, mo, OneInfo, <<Leaf("pskL" \o ToString(n), n), Leaf("pskidd", 160)>>) : su \in Suites, n \in SweepLens \ {0}}
